@@ -25,9 +25,11 @@ from mc.ref import filedev as ref
 
 PID = "C19"
 ENGINE = "E1 bounded-exhaustive enumeration (generator tables x listing orders x device file maps x flags) against a decision-table reference"
-RULE = ("stage 1: every set of n Entire generators (row = path x output x reload x is_safe, distinct prios drawn from "
-        "{50, default 100, 150}) in every listing order, for plain PC and Cumulus soft - one case each, distinct by "
-        "construction; non-trivial = some path is claimed by >= 2 generators. stage 2: every distinct OldNewResult value "
+RULE = ("stage 1: every set of n Entire generators (row = path x output x reload x is_safe, distinct declared prios drawn "
+        "from {-10, 0, 50, 100, 150}, each declared as class attribute / in __init__ before super().__init__() / after "
+        "it, 100 also by omission = Entire's default; assignments outside {50 class, 100 omitted, 150 class} are crossed "
+        "with the reload='' rows and plain PC soft only) in every listing order, for plain PC and Cumulus soft - one case "
+        "each, distinct by construction; non-trivial = some path is claimed by >= 2 generators. stage 2: every distinct OldNewResult value "
         "reached (ordered new_files, safe_new_files) x every device file map (per path: key missing / None / one of the "
         "outputs) x entire_reload x acl_safe - distinct via a visited set per block; non-trivial = a planned path exists "
         "on the device, or reload is forced with something planned.")
@@ -51,7 +53,18 @@ PATHS = ["/etc/p", "/etc/q"]
 OUTPUTS = ["", "a", "a\n", "a\nb"]
 RELOADS = ["", "r"]
 SAFES = [0, 1]
-PRIOS = [50, 100, 150]          # 100 is produced by NOT setting `prio` on the class (Entire's default)
+PRIO_VALUES = [-10, 0, 50, 100, 150]    # any int is a legal prio (only compared / sorted); 0 and a negative one included
+# how a generator declares its prio - each is a distinct route into Entire.__init__'s defaulting:
+#   omit  nothing declared (the documented default 100 applies)      class  class attribute
+#   pre   own __init__ sets self.prio before super().__init__()      post   own __init__ sets it after super().__init__()
+PRIO_HOWS = ["class", "pre", "post"]
+PRIO_SLOTS = sorted([(100, "omit")] + [(v, h) for v in PRIO_VALUES for h in PRIO_HOWS])
+PRIO_SLOTS_3 = [sl for sl in PRIO_SLOTS if sl[1] in ("omit", "class")]      # 3-generator sets: class attribute / omission only
+BASE_SLOTS = {(50, "class"), (100, "omit"), (150, "class")}
+# cost control: a prio assignment drawn from BASE_SLOTS only is crossed with all 32 table rows; every other assignment
+# with the 16 rows whose reload is "" and on plain PC soft only (the reload text is carried along by selection and is
+# the only thing the soft changes; neither takes part in choosing the winner)
+NARROW_RELOADS = [""]
 SOFTS = ["", "Cumulus Linux 5.4.0"]
 MODES = ["yes", "no", "force"]
 MISSING = "<missing>"           # old-map state: key not in the dict (None = key present, value None)
@@ -68,7 +81,10 @@ def bound_text(tier):
     n = 2 if tier == "quick" else 3
     extra = " plus one seed-selected block of 3-generator sets" if tier == "quick" else ""
     return ("all sets of 1..%d Entire generators over %d table rows (2 paths x 4 outputs x 2 reloads x 2 is_safe) with "
-            "distinct prios from {50,100(default),150}, all listing permutations, soft in {'', Cumulus}; every reached "
+            "distinct declared prios from {-10,0,50,100,150} x declaration style {class attr, before super().__init__, "
+            "after it; 100 also by omission} (3-generator sets: class attr/omission only; assignments other than "
+            "{50 class,100 omitted,150 class} with the 16 reload='' rows on plain PC only), all listing permutations, "
+            "soft in {'', Cumulus}; every reached "
             "OldNewResult value x 36 device file maps x entire_reload in {yes,no,force} x acl_safe in {0,1}%s; complete"
             % (n, len(ROWS), extra))
 
@@ -139,13 +155,23 @@ def setup():
         _DEV[soft] = _Device(env.hw("pc", soft) if soft else env.hw("pc"))
 
 
-def gen_class(row):
-    """row = (path, prio, output, reload, is_safe) -> a real subclass of annet.generators.Entire"""
+def norm_row(row):
+    """(path, prio, output, reload, is_safe[, how]) -> 6-tuple; rows recorded before `how` existed meant: 100 = omitted"""
     row = tuple(row)
+    if len(row) == 5:
+        row = row + ("omit" if row[1] == 100 else "class",)
+    return row
+
+
+def gen_class(row):
+    """row = (path, declared prio, output, reload, is_safe, how the prio is declared) -> a real subclass of
+    annet.generators.Entire"""
+    row = norm_row(row)
     cls = _CLS.get(row)
     if cls is None:
         from annet.generators import Entire
-        path, prio, output, reload, safe = row
+        path, prio, output, reload, safe, how = row
+        assert how in ("omit", "class", "pre", "post") and (how != "omit" or prio == 100), row
 
         class TableEntire(Entire):
             def path(self, device):
@@ -159,10 +185,20 @@ def gen_class(row):
 
             def is_safe(self, device):
                 return bool(safe)
-        if prio != 100:
+        if how == "class":
             TableEntire.prio = prio
-        TableEntire.__name__ = TableEntire.__qualname__ = "T_%s_%d_%d%d%d" % (
-            path.rsplit("/", 1)[-1], prio, OUTPUTS.index(output) if output in OUTPUTS else 9, int(bool(reload)), safe)
+        elif how == "pre":
+            def __init__(self, storage):
+                self.prio = prio
+                Entire.__init__(self, storage)
+            TableEntire.__init__ = __init__
+        elif how == "post":
+            def __init__(self, storage):
+                Entire.__init__(self, storage)
+                self.prio = prio
+            TableEntire.__init__ = __init__
+        TableEntire.__name__ = TableEntire.__qualname__ = "T_%s_%s%d_%d%d%d" % (
+            path.rsplit("/", 1)[-1], how, prio, OUTPUTS.index(output) if output in OUTPUTS else 9, int(bool(reload)), safe)
         cls = _CLS[row] = TableEntire
     return cls
 
@@ -246,7 +282,7 @@ def judge_selection(listing, soft, full, safe_map):
             else:
                 what = "content right, reload text wrong"
             out.append(({"kind": "selection", "safe_mode": is_safe, "what": what, "listing": where},
-                        "path=%s soft=%r new_files(safe=%s)[path]=%r expected=%r listing(path,prio,output,reload,is_safe)=%r"
+                        "path=%s soft=%r new_files(safe=%s)[path]=%r expected=%r listing(path,prio,output,reload,is_safe,prio declared how)=%r"
                         % (path, soft, bool(is_safe), g, e, listing)))
         if out:
             break
@@ -356,7 +392,9 @@ def judge_diff(soft, old, eff):
 
 # ---------------------------------------------------------------------------------------------------
 def prio_choices(n):
-    return list(itertools.combinations(PRIOS, n))
+    """all ways to give n generators distinct declared prios (increasing), each with a declaration style"""
+    slots = PRIO_SLOTS_3 if n >= 3 else PRIO_SLOTS
+    return [c for c in itertools.combinations(slots, n) if len({v for v, _h in c}) == n]
 
 
 def blocks_for(n):
@@ -379,15 +417,21 @@ def blocks(tier, seed):
 
 
 def gen_sets(block):
-    """the sets of this block: tuples of rows (path, prio, output, reload, is_safe) ordered by increasing prio"""
+    """the sets of this block: tuples of rows (path, prio, output, reload, is_safe, how) ordered by increasing prio"""
     n = block["n"]
-    per_gen = []
-    for i, pi in enumerate(block["paths"]):
-        outs = [OUTPUTS[block["top"]]] if i == n - 1 else OUTPUTS
-        per_gen.append([(PATHS[pi], o, r, s) for o in outs for r in RELOADS for s in SAFES])
-    for prios in prio_choices(n):
-        for rows in itertools.product(*per_gen):
-            yield tuple((r[0], p) + r[1:] for r, p in zip(rows, prios))
+    per_gen = {}
+    for name, reloads in (("full", RELOADS), ("narrow", NARROW_RELOADS)):
+        per_gen[name] = []
+        for i, pi in enumerate(block["paths"]):
+            outs = [OUTPUTS[block["top"]]] if i == n - 1 else OUTPUTS
+            per_gen[name].append([(PATHS[pi], o, r, s) for o in outs for r in reloads for s in SAFES])
+    for slots in prio_choices(n):
+        base = set(slots) <= BASE_SLOTS
+        if not base and SOFTS[block["soft"]]:
+            continue            # the soft only changes the reload text; non-base assignments run on plain PC only
+        rowsets = per_gen["full" if base else "narrow"]
+        for rows in itertools.product(*rowsets):
+            yield tuple((r[0], v) + r[1:] + (h,) for r, (v, h) in zip(rows, slots))
 
 
 OLD_MAPS = [old_dict(s) for s in itertools.product(OLD_STATES, repeat=len(PATHS))]
@@ -422,7 +466,7 @@ def run_block(block, ctx):
             for sig, detail in judge_selection(listing, soft, full, safe_map):
                 ctx.violation(sig, case_of(listing, soft), detail)
             if contested and len(ctx.samples) < 2:
-                ctx.sample({"listing(path,prio,output,reload,is_safe)": [list(r) for r in listing], "soft": soft,
+                ctx.sample({"listing(path,prio,output,reload,is_safe,prio declared how)": [list(r) for r in listing], "soft": soft,
                             "new_files": {k: list(v) for k, v in full.items()},
                             "new_files(safe)": {k: list(v) for k, v in safe_map.items()}})
             ctx.extra["pipeline_cases_covered"] += STAGE2_PER_VALUE
@@ -460,7 +504,7 @@ def run_block(block, ctx):
 
 
 def replay(case):
-    listing = [tuple(r) for r in case["gens"]]
+    listing = [norm_row(r) for r in case["gens"]]
     soft = case["soft"]
     res, full, safe_map = run_stage1(listing, soft)
     out = list(judge_selection(listing, soft, full, safe_map))
